@@ -106,6 +106,7 @@ class TooManyPaths(Exception):
     pass
 
 
+BUILTIN_TYPES = {"str": str, "bytes": bytes, "list": list, "tuple": tuple, "dict": dict, "int": int, "bool": bool, "float": float, "set": set}
 PURE_STR = {"lower", "upper", "replace", "strip", "lstrip", "rstrip", "encode", "decode", "startswith", "endswith",
             "split", "format", "join", "capitalize", "title", "splitlines", "count", "find"}
 
@@ -434,6 +435,8 @@ class Interp:
                     return [(Const(self.resolve(e.id)), st)]
                 except KeyError:
                     pass
+            if e.id in BUILTIN_TYPES:
+                return [(Const(BUILTIN_TYPES[e.id]), st)]
             return [(Unknown(e.id), st)]
         if isinstance(e, ast.Attribute):
             key = self.attr_key(e)
@@ -620,6 +623,11 @@ class Interp:
                 if isinstance(e.args[0], ast.Name) and e.args[0].id == self.selfname:
                     return [(Ref("self." + args[1].v), st)]
                 return [(Unknown("getattr"), st)]
+            if f.id == "isinstance" and len(args) == 2 and isinstance(args[0], Const) and isinstance(args[1], Const) and (
+                    isinstance(args[1].v, type) or (isinstance(args[1].v, tuple) and all(isinstance(t, type) for t in args[1].v))):
+                return [(Const(isinstance(args[0].v, args[1].v)), st)]
+            if f.id == "type" and len(args) == 1 and isinstance(args[0], Const):
+                return [(Const(type(args[0].v)), st)]
             if f.id == "len" and args and isinstance(args[0], Const):
                 try:
                     return [(Const(len(args[0].v)), st)]
